@@ -35,6 +35,13 @@ func (acc *DB) GenesisInit(addr string, amount int64) (receipt *types.Receipt, e
 
 // GenesisInitExec 生成创世地址执行器账户收据
 func (acc *DB) GenesisInitExec(addr string, amount int64, execaddr string) (receipt *types.Receipt, err error) {
+	//先做ExecDeposit的参数检查, 避免合约账户已经入账后才panic
+	if addr == execaddr {
+		return nil, types.ErrSendSameToRecv
+	}
+	if !acc.CheckAmount(amount) {
+		return nil, types.ErrAmount
+	}
 	accTo := acc.LoadAccount(execaddr)
 	copyto := types.CloneAccount(accTo)
 	accTo.Balance, err = safeAdd(accTo.GetBalance(), amount)
